@@ -413,7 +413,7 @@ fn run(ctx: &Ctx) {
                 c,
             }
         });
-    let cases = ctx.share(ctx.tier.pick(640_000, 6_400_000));
+    let cases = ctx.share(ctx.tier.pick(640_000, 64_000_000));
     ctx.run_cases("payloads", cases, strat, check);
 }
 
